@@ -94,6 +94,15 @@ func valueTables(k int, rng *rand.Rand, thorough bool) []*valueTable {
 		return t
 	}
 	var out []*valueTable
+	if k > 6 {
+		// long specifications: k integer bounds and k bounds spread over the float range
+		ints, spread := make([]float64, k), make([]float64, k)
+		for i := range ints {
+			ints[i] = float64(3*i + 1)
+			spread[i] = (float64(i) - float64(k)/2 + 0.25) * 1e12
+		}
+		return []*valueTable{mk("longint/above", true, ints), mk("longspread/below", false, spread)}
+	}
 	base := map[string][]float64{
 		"int":  {1, 2, 3, 4, 5, 6},
 		"neg":  {-3.5, -1, 0, 2.25, 7, 1e6},
@@ -132,6 +141,14 @@ func durTables(k int, rng *rand.Rand, thorough bool) []*durTable {
 		return t
 	}
 	var out []*durTable
+	if k > 6 {
+		ms, spread := make([]time.Duration, k), make([]time.Duration, k)
+		for i := range ms {
+			ms[i] = time.Duration(3*i+1) * time.Millisecond
+			spread[i] = time.Duration(i-k/2)*time.Hour + 7
+		}
+		return []*durTable{mk("longms/above", true, ms), mk("longspread/below", false, spread)}
+	}
 	base := map[string][]time.Duration{
 		"ms":   {time.Millisecond, 2 * time.Millisecond, 5 * time.Millisecond, time.Second, time.Minute, time.Hour},
 		"neg":  {-5 * time.Second, -2, 0, 2, 4, time.Second},
@@ -444,6 +461,12 @@ func (r *histRun) rec(k string, tok int, tr *Trace) {
 				d = r.c.dt.sample(tok)
 			} else {
 				d = time.Duration(tok)
+				if tok%2 != 0 {
+					// the other way a duration reaches a histogram: a stopwatch started from it
+					// ("a value histogram ignores durations" holds for that path too)
+					r.h.Start().Stop()
+					return
+				}
 			}
 			r.h.RecordDuration(d)
 		}
@@ -531,11 +554,28 @@ func init() {
 		cm := commonFlags(fs)
 		k := fs.Int("K", 3, "bound tokens")
 		maxLen := fs.Int("L", 3, "max spec length")
+		long := fs.Bool("long", false, "long specifications only: 31..K-1 bounds, sorted and shuffled (the top of the 1..64 range and beyond)")
 		fs.Parse(args)
 		rng := rand.New(rand.NewSource(cm.seed))
 		thorough := cm.tier == "thorough"
 		tr := NewTrace(filepath.Join(cm.out, "trace.ndjson"))
-		specs := enumSpecs(*k, *maxLen)
+		var specs [][]int
+		if !*long {
+			specs = enumSpecs(*k, *maxLen)
+		} else {
+			for _, n := range []int{32, 63, 64, 65} {
+				if n > *k {
+					continue
+				}
+				sorted := make([]int, n)
+				for i := range sorted {
+					sorted[i] = i + 1
+				}
+				shuffled := append([]int{}, sorted...)
+				rng.Shuffle(n, func(i, j int) { shuffled[i], shuffled[j] = shuffled[j], shuffled[i] })
+				specs = append(specs, sorted, shuffled)
+			}
+		}
 		vts := valueTables(*k, rng, thorough)
 		dts := durTables(*k, rng, thorough)
 		cases, recs := 0, 0
@@ -558,7 +598,7 @@ func init() {
 					r := newHistRun(c, tr)
 					// every sample on its own, each followed by a report
 					for tok := -1; tok <= maxTok+3; tok++ {
-						if tok == maxTok+2 {
+						if tok == maxTok+2 || (*long && !(tok <= 2 || tok >= 2*len(sp)-6 || tok%16 == 0)) {
 							continue
 						}
 						r.rec("value", tok, tr)
@@ -585,6 +625,9 @@ func init() {
 					c := &histCase{kind: "duration", path: path, spec: sp, dt: dt}
 					r := newHistRun(c, tr)
 					for tok := 0; tok <= maxTok; tok++ {
+						if *long && !(tok <= 2 || tok >= 2*len(sp)-6 || tok%16 == 0) {
+							continue
+						}
 						r.rec("duration", tok, tr)
 						r.rep(tr)
 						recs++
@@ -609,6 +652,9 @@ func init() {
 		nshared := 40
 		if thorough {
 			nshared = 600
+		}
+		if *long {
+			nshared = 0
 		}
 		for it := 0; it < nshared; it++ {
 			spec := make(tally.ValueBuckets, 48)
